@@ -58,6 +58,11 @@ def run(ctx):
         c05.s55(r89, prog)
         c05.s58(r89, prog, T)
         c05.s510(r89, prog)
+    # R8.10 "evaluation stops at the first failing sub-expression": an assignment fails exactly when the context's set_value says so -
+    # the C04 R4.2 decision table of HashMapContext::set_value over all 36 type pairs (same type or unbound: stored; any other pair:
+    # the matching expected-type error, nothing stored), reported here: a pair that wrongly succeeds lets everything after it run
+    from rules.c04 import r42
+    r42(_Renamed(ctx, 'R8.10'), prog)
 
 
 class _BaseCallOnly:
